@@ -1,6 +1,7 @@
 // rvh — runs the real rivia code on scripts; one result line per script line.
 // Protocol: DESIGN.md Appendix C. Strings are hex of UTF-8 bytes.
 mod core;
+mod handles;
 mod laws;
 mod pure;
 use std::io::{BufRead, BufWriter, Write};
@@ -41,7 +42,7 @@ fn main() {
             continue;
         }
         let fields: Vec<&str> = line.split('\t').collect();
-        let res = std::panic::catch_unwind(|| pure::dispatch(&fields).or_else(|| laws::dispatch(&fields)).or_else(|| core::dispatch(&fields)));
+        let res = std::panic::catch_unwind(|| pure::dispatch(&fields).or_else(|| laws::dispatch(&fields)).or_else(|| core::dispatch(&fields)).or_else(|| handles::dispatch(&fields)));
         match res {
             Ok(Some(r)) => writeln!(out, "{}", r).unwrap(),
             Ok(None) => writeln!(out, "UNKNOWN {}", fields[0]).unwrap(),
